@@ -14,6 +14,7 @@ builds; the caller records the problem as a broken obligation, never as a violat
 import fcntl
 import importlib.util
 import os
+import shutil
 
 from . import common
 
@@ -43,9 +44,34 @@ def _write_if_changed(path, text):
     return True
 
 
+def private_project_for_scratch_tree():
+    """Development runs against a scratch copy of plinio (PLINIO_SRC set) must not rewrite the generated
+    files of the shared Lean project (other checks build on them at the same time): they get a private
+    copy of the project, build products included, under the scratch tree's output directory, and
+    `common.LEAN_DIR` is pointed at it for the rest of the process."""
+    global GEN_DIR
+    if os.path.abspath(common.REPO) == '/repo':
+        return
+    shared = os.path.join(common.VERIF, 'lean')
+    private = os.path.join(common.OUT, 'lean')
+    if os.path.abspath(common.LEAN_DIR) != os.path.abspath(private):
+        if not os.path.isdir(private):
+            os.makedirs(common.OUT, exist_ok=True)
+            with open(os.path.join(shared, '.lake.lock'), 'w') as lk:      # a consistent snapshot
+                fcntl.flock(lk, fcntl.LOCK_EX)
+                try:
+                    shutil.copytree(shared, private, symlinks=True,
+                                    ignore=shutil.ignore_patterns('.lake.lock', '.audit'))
+                finally:
+                    fcntl.flock(lk, fcntl.LOCK_UN)
+        common.LEAN_DIR = private
+    GEN_DIR = os.path.join(common.LEAN_DIR, 'PlinioVerif', 'Gen')
+
+
 def regenerate(names, root=None):
     """Regenerate the named groups from `root`; returns the list of (generated file, error text)."""
     root = root or common.REPO
+    private_project_for_scratch_tree()
     tr = _translator()
     os.makedirs(GEN_DIR, exist_ok=True)
     problems = []
